@@ -34,6 +34,12 @@ extern "C" __attribute__((used)) const char *__ubsan_default_options()
 namespace vsim
 {
 
+static int g_tier_scale = 1;
+int tier_scale()
+{
+  return g_tier_scale;
+}
+
 static std::vector<Violation> g_reported;
 void report(const std::string &cls, const std::string &detail)
 {
@@ -960,6 +966,7 @@ int main(int argc, char **argv)
   std::string prop   = arg_val(argc, argv, "--prop", "");
   uint64_t base_seed = strtoull(arg_val(argc, argv, "--seed", "1"), nullptr, 10);
   g_outdir           = arg_val(argc, argv, "--out-dir", "/verif/build/tmp");
+  vsim::g_tier_scale = atoi(arg_val(argc, argv, "--scale", "1"));
 
   if (has_flag(argc, argv, "--describe"))
   {
